@@ -733,12 +733,14 @@ def merge_docs(docs):
     segs.append(base.segs[-1])
     n = 0
     for s in segs:
-        if s.id == 'GS':
+        if getattr(s, 'raw_pattern', None) is not None:
+            continue                                  # a malformed segment given as raw text
+        if s.id == 'GS' and len(s.vals) > 5:
             n += 1
             s.vals[5] = [str(n)]
-        elif s.id == 'GE':
+        elif s.id == 'GE' and len(s.vals) > 1:
             s.vals[1] = [str(n)]
-        elif s.id == 'IEA':
+        elif s.id == 'IEA' and len(s.vals) > 0:
             s.vals[0] = [str(n)]
     out.segs = segs
     return out
